@@ -300,6 +300,9 @@ impl Evidence {
         for (site, n) in &w.sched.switch_sites {
             *self.probes.entry(format!("switch_at_{site}")).or_insert(0) += n;
         }
+        if w.sched.blocked_yields > 0 {
+            *self.probes.entry("yields_blocked_on_a_lock_held_by_a_parked_node".into()).or_insert(0) += w.sched.blocked_yields;
+        }
         if w.sched.capped {
             *self.probes.entry("worlds_hit_yield_cap".into()).or_insert(0) += 1;
         }
